@@ -28,6 +28,7 @@ package codegen
 // a range over a map appearing anywhere else in the package is reported.
 //@ maprange-census property C09: buildErrorsData=1
 //@ func extractCookies$1
+//@   params name elem required _
 //@   opt maprange deterministic
 //@   opt inline none
 //@   opt loopframes none
